@@ -22,9 +22,9 @@ import numpy as np
 
 from . import core
 
-MECH = dict(MSkip="none", MLoadMissing="none", MLayerCond=True, MRestoreDual=True, MPolyAsHeld=True, MDynAlways=True, MTransformRebuilds=True, MBrowseRereads=True, MMemoByPath=False)
+MECH = dict(MSkip="none", MLoadMissing="none", MLayerCond=True, MRestoreDual=True, MPolyAsHeld=True, MDynAlways=True, MTransformRebuilds=True, MBrowseRereads=True, MBrowseResetsViews=True, MMemoByPath=False)
 PINNED = dict(MECH, MLoadMissing="default")
-INVARIANTS = ["TypeOK", "LoadSaveIdentity", "FileHoldsContent", "SavedMeshIsMeshOfItsTriangulation", "MeshRestoredEqualsRecomputed", "BrowsedStepIsRecordedStep"]
+INVARIANTS = ["TypeOK", "LoadSaveIdentity", "FileHoldsContent", "SavedMeshIsMeshOfItsTriangulation", "MeshRestoredEqualsRecomputed", "BrowsedStepIsRecordedStep", "BrowsedViewsBelongToStep"]
 
 OPT_NAMES = ["solve_time", "skip_time", "dt_init", "dt_max", "adaptive", "adaptive_window", "max_solve_retries",
              "adaptive_time_step_multiplier", "output_file", "terminal_psi", "gpu", "sparse_solver",
@@ -502,6 +502,14 @@ def frame_id_obj(I, data):
     return I("frame", int(data.step), tuple(parts), tuple(state))
 
 
+def view_id(I, sol):
+    """What a Solution derives (lazily, cached on the object) from the step it holds: the sheet current densities on ITS mesh
+    and the vorticity."""
+    mag = lambda q: np.asarray(getattr(q, "magnitude", q))
+    return I("view", I.arr(mag(sol.supercurrent_density)), I.arr(mag(sol.normal_current_density)),
+             I.arr(mag(sol.current_density)), I.arr(mag(sol.vorticity)))
+
+
 def dyn_rec(I, dyn):
     if dyn is None:
         return {f: 0 for f in ("dt", "time", "mu", "theta", "screening_iterations")}
@@ -658,12 +666,14 @@ def solution_case(tdgl, args, tmp):
             ev.append({"ev": "save", "ok": True, "rec": {"frames": [frame_id_raw(I, f, s) for s in fsteps],
                                                          "mesh": mesh_id(I, mesh_rec_raw(I, f["solution/device/mesh"] if "solution/device/mesh" in f else None))}})
         lframes, ldyn, ltimes, lclosest, lcur, lmesh, eqs, err = [], dyn_rec(I, None), 0, 0, 0, 0, [], ""
+        lviews = []
         nofile = mode in ("deleted", "nofile")
         held = fsteps[0] if nofile else shape["cur"] - 1 + steps[0]
         try:
             for s in fsteps:
                 lo = tdgl.Solution.from_hdf5(path, solve_step=s)
                 lframes.append(frame_id_obj(I, lo.tdgl_data))
+                lviews.append(view_id(I, lo))          # the views of a reader without history (one fresh object per step)
                 if s == held:
                     ldyn = dyn_rec(I, lo.dynamics)
                     ltimes, lclosest, lcur = derived(I, lo, queries)
@@ -685,12 +695,13 @@ def solution_case(tdgl, args, tmp):
                 for kk in ks:
                     try:
                         one.solve_step = kk
-                        ev.append({"ev": "browse", "ok": True, "k": kk, "frame": frame_id_obj(I, one.tdgl_data)})
+                        ev.append({"ev": "browse", "ok": True, "k": kk, "frame": frame_id_obj(I, one.tdgl_data),
+                                   "view": view_id(I, one), "views": list(lviews)})
                     except Exception as e:
-                        ev.append({"ev": "browse", "ok": False, "k": kk, "frame": 0, "err": f"{type(e).__name__}: {str(e)[:120]}"})
+                        ev.append({"ev": "browse", "ok": False, "k": kk, "frame": 0, "view": 0, "views": [], "err": f"{type(e).__name__}: {str(e)[:120]}"})
                         break
             except Exception as e:
-                ev.append({"ev": "browse", "ok": False, "k": 0, "frame": 0, "err": f"{type(e).__name__}: {str(e)[:120]}"})
+                ev.append({"ev": "browse", "ok": False, "k": 0, "frame": 0, "view": 0, "views": [], "err": f"{type(e).__name__}: {str(e)[:120]}"})
         if gen == 1 and history:
             lo.delete_hdf5()
             ev.append({"ev": "remove", "ok": not os.path.exists(path)})
@@ -983,7 +994,7 @@ def validate(ctx, pid, traces, what, max_diag=6):
         clause = ",".join(violated) if violated else (
             "SavedMeshIsMeshOfItsTriangulation / MeshRestoredEqualsRecomputed (the object's mesh is not the mesh of its triangulation)"
             if e is not None and e["ev"] == "made" else
-            "BrowsedStepIsRecordedStep (the step shown while browsing one Solution is not the step the file holds)"
+            "BrowsedStepIsRecordedStep / BrowsedViewsBelongToStep (the step shown while browsing one Solution, or what the object derives from it, is not the step the file holds)"
             if e is not None and e["ev"] == "browse" else "LoadSaveIdentity (no matching action)")
         detail = ""
         if e is not None and tr["kind"] == "options" and e["ev"] == "load":
